@@ -24,6 +24,8 @@ import XdslModel.DCE
 import XdslModel.EGraph
 import XdslModel.RiscVRules
 import XdslModel.ArithFloatLogic
+import XdslModel.LLVM
+import XdslModel.X86
 /-!
 Model registry for the driver: `MODEL <name>` selects a `(state, lineStep)` pair.
 A continuation-passing encoding is used because the state types differ.
@@ -60,6 +62,8 @@ def run? (name : String) : Option Runner :=
   | "egraph" => some fun k => k EGraph.lineStep ()
   | "riscv" => some fun k => k RiscV.rulesLineStep ()
   | "arith_float_logic" => some fun k => k ArithFloatLogic.lineStep ()
+  | "llvm" => some fun k => k LLVM.lineStep {}
+  | "x86" => some fun k => k X86.lineStep {}
   | _ => none
 
 end Xdsl.Registry
